@@ -672,12 +672,55 @@ def rule_shift_recursion(ctx, R="C16.6"):
         ctx.check(R, "shift_l+shift_r/terminates", a > 2 or (a == 2 and b >= 0), "T_l + T_r = %d*h%+d, needs >= 2h: otherwise some `right` makes the two functions call each other forever" % (a, b), site(MA, fns["shift_l"]))
 
 
+def rule_integer_quotient(ctx, R="C16.9"):
+    ctx.rule(R, "integer division and remainder act on the canonical representatives in [0, p) of their operands - not on the signed view the relational operators use: the quotient / remainder is taken of modulus(left, field) by modulus(right, field), left by right")
+    fns = module_fns()
+
+    def view(e, fn, at):
+        """('canon' | 'signed' | 'raw' | None, parameter name) of an operand expression"""
+        e = resolve(e, fn, at)
+        while e["k"] in ("Ref", "Paren") or (e["k"] == "MethodCall" and e["method"] == "clone" and not e["args"]):
+            e = resolve(e["e"] if e["k"] != "MethodCall" else e["recv"], fn, at)
+        if e["k"] == "Path":
+            return ("raw", e["path"])
+        if e["k"] == "Call" and e["func"]["k"] == "Path" and len(e["args"]) == 2 and render(strip(resolve(e["args"][1], fn, at))).replace("&", "").strip() == "field":
+            inner = view(e["args"][0], fn, at)
+            name = last(e["func"]["path"])
+            if name == "modulus" and inner[0] in ("raw", "canon"):
+                return ("canon", inner[1])
+            if name in ("comparable_element", "val"):
+                return ("signed", inner[1])
+        return (None, render(e)[:40])
+
+    for name, what in (("idiv", "quotient"), ("mod_op", "remainder")):
+        fn = fns.get(name)
+        if fn is None:
+            ctx.missing(R, name)
+            continue
+        pv = [i["pat"].get("name") for i in fn["sig"]["inputs"] if not i.get("self")]
+        sites = []
+        for n in walk(fn["body"]):
+            if what == "quotient" and n["k"] == "Binary" and n["op"] == "/":
+                sites.append((n, n["l"], n["r"]))
+            if what == "remainder" and ((n["k"] == "Binary" and n["op"] == "%") or (n["k"] == "Call" and n["func"]["k"] == "Path" and last(n["func"]["path"]) == "modulus" and len(n["args"]) == 2 and render(strip(resolve(n["args"][1], fn, n))).replace("&", "").strip() != "field")):
+                sites.append((n, n["l"], n["r"]) if n["k"] == "Binary" else (n, n["args"][0], n["args"][1]))
+        ok = len(sites) == 1
+        det = "%d %s operation(s) found" % (len(sites), what)
+        if ok:
+            n, a, b = sites[0]
+            va, vb = view(a, fn, n), view(b, fn, n)
+            ok = len(pv) >= 2 and va == ("canon", pv[0]) and vb == ("canon", pv[1])
+            det = "the %s is taken of the %s view of `%s` by the %s view of `%s`" % (what, va[0], va[1], vb[0], vb[1])
+        ctx.check(R, "%s/on-canonical-representatives-in-order" % name, ok, det, site(MA, fn))
+
+
 def run(ctx):
     rule_shift_recursion(ctx)
     rule_divisors(ctx)
     rule_exponents(ctx)
     rule_canonical(ctx)
     rule_comparisons(ctx)
+    rule_integer_quotient(ctx)
     import c06
     import c11
 
